@@ -1309,3 +1309,12 @@ Example C08_std_contain_every_inhabited :
        (B "../../..", B "file:///C:/"); (B "D|", B "file:///D:")] = true
   /\ std_every_case (B "https://u:p@h.x:8/a/b?q") [(B "/C:/x", B "https://u:p@h.x:8/C:/x"); (B "\z", B "https://u:p@h.x:8/z")] = true.
 Proof. exact std_contain_every_inhabited. Qed.
+
+(* 11.10 where parser.rs leaves the law of 11.8 (the known finding F-C01-1 / F-C08-1 read on the Standard's side): both
+   references meet the premise of 11.8 against the base file://h.x/tmp/d; the Standard keeps the host (file://h.x/C:/y,
+   file://h.x/C:/x), the model of Url::join drops it (file:///C:/y, file:///C:/x) *)
+Theorem C08_std_file_drive_divergence :
+  std_file_diverge_case (B "file://h.x/tmp/d") (B "C|/y") (B "file://h.x/C:/y") (B "file:///C:/y") = true
+  /\ std_file_diverge_case (B "file://h.x/tmp/d") (B "/C:/x") (B "file://h.x/C:/x") (B "file:///C:/x") = true.
+Proof. exact std_file_drive_divergence. Qed.
+Print Assumptions C08_std_file_drive_divergence.
